@@ -626,8 +626,17 @@ class EQLTranslator:
 
         if left_dao is anchor_dao:
             target_dao, target_fk, anchor_fk = right_dao, right_fk, left_fk
-        else:
+        elif right_dao is anchor_dao:
             target_dao, target_fk, anchor_fk = left_dao, left_fk, right_fk
+        else:
+            raise UnsupportedQueryTypeError(
+                "An attribute equality join needs the selected variable on one side."
+            )
+
+        if issubclass(target_dao, anchor_dao) or issubclass(anchor_dao, target_dao):
+            raise UnsupportedQueryTypeError(
+                f"Cannot join {target_dao.__name__} to {anchor_dao.__name__}: self joins are not supported."
+            )
 
         if not self.join_manager.is_table_joined(target_dao):
             onclause = target_fk == anchor_fk
